@@ -13,14 +13,17 @@
  *                   sample_k = bilinear blend (spec_sscl.h) of src_top[x], src_top[x+1], src_bottom[x], src_bottom[x+1],
  *                   x = (vx + k*unit_x) >> 16, horizontal weight = 7 top bits of the fraction of vx + k*unit_x, row weights wt, wb
  *   frame.*         (VC_CH == 4) words before dst[0] / after dst[w-1] unchanged, source rows and mask unchanged;
- *                   the source rows are allocated EXACTLY as long as the licence of the main-loop contract (the pair of the
- *                   lowest and of the highest sample position), the mask exactly w bytes: any other read is a pointer-check
- *                   failure (C04) - natively ASan decides
+ *                   the source rows are allocated EXACTLY as long as the licence of the main-loop contract (VC_NS words; the
+ *                   positions are restricted to those whose lowest pair starts at word 0 and whose highest pair ends at word
+ *                   VC_NS - 1), the mask exactly w bytes: any other read is a pointer-check failure (C04) - natively ASan decides
  *
  *   -DVC_FN=<function>  -DVC_MASKK=0 none | 1 a8 bytes | 2 solid (pointer to one a8r8g8b8 word)   -DVC_XSRC=1 x8r8g8b8 source
  *   -DVC_OP (SPOP_SRC | SPOP_OVER)  -DVC_MODE (0 | 1 unified mask)  -DVC_CH 0..3 | 4
  *   -DVC_W width  -DVC_DOFF destination phase in pixels (16-byte phase: (4 - DOFF) % 4 head pixels)  -DVC_K ghost pixel
  *   -DVC_MCASE  0 mask bytes symbolic | 1 the first aligned group of 4 mask bytes is zero (skip path) | 2 every mask byte 0xff
+ *               | 3 the first aligned group zero, every other mask byte 0xff
+ *   -DVC_WT -DVC_WB  row weights fixed (one pair per query)   -DVC_FRAC=<(frac (unit_x) << 16) | frac (vx)>  the 16-bit fractions of
+ *               vx and unit_x fixed (their integer parts stay symbolic): with symbolic weights only the one-pixel kernel queries finish
  *   -DVC_UXMAX  |unit_x| <= VC_UXMAX << 16 (default 3);  source rows have VC_NS words (default 32)
  *
  * Alignment: CBMC places every object at offset 0 of its own address space and (uintptr_t) p & 15 is the low bits of the
@@ -34,6 +37,14 @@
 #include "spec_sscl.h"
 #include "vh.h"
 #include "c02.h"
+
+/* array inputs: under CBMC every element is assigned a nondeterministic value of its own, so that the counterexample trace
+ * names it (in_x[i]) and the native replay gets the whole array */
+#ifdef VH_CBMC
+#define SSCL_IN_ARRAY(type, name, n) type name[n]; do { int i_; for (i_ = 0; i_ < (int) (n); i_++) name[i_] = nondet_##type (); } while (0)
+#else
+#define SSCL_IN_ARRAY(type, name, n) VC_IN_ARRAY (type, name, n)
+#endif
 
 #ifndef VC_MASKK
 #define VC_MASKK 0
@@ -69,10 +80,10 @@ _pixman_implementation_create (pixman_implementation_t *fallback, const pixman_f
 
 void harness (void)
 {
-    VC_IN_ARRAY (vh_u32, in_top, VC_NS);
-    VC_IN_ARRAY (vh_u32, in_bot, VC_NS);
-    VC_IN_ARRAY (vh_u8, in_msk, VC_W);
-    VC_IN_ARRAY (vh_u32, in_dst, VC_W);
+    SSCL_IN_ARRAY (vh_u32, in_top, VC_NS);
+    SSCL_IN_ARRAY (vh_u32, in_bot, VC_NS);
+    SSCL_IN_ARRAY (vh_u8, in_msk, VC_W);
+    SSCL_IN_ARRAY (vh_u32, in_dst, VC_W);
     VH_IN (vh_u32, in_guard);
     VH_IN (vh_u32, in_solid);
     VH_IN (vh_i32, in_vx);
@@ -109,20 +120,20 @@ void harness (void)
     VH_ASSUME (plo >= 0 && xhi + 2 <= VC_NS);
 
 #if VC_CH == 4
-    /* source rows exactly as long as the licence: words xlo .. xhi + 1 of a row that starts xlo words before the storage.
-     * The row pointer handed over is (storage - xlo): formed without leaving the object by keeping xlo == 0 here (the
-     * under-read side) - vx < 65536 or the last pixel's position < 65536 */
-    VH_ASSUME (xlo == 0);
-    n = xhi + 2;
-    top = malloc (sizeof (uint32_t) * n);
-    bot = malloc (sizeof (uint32_t) * n);
+    /* source rows exactly as long as the licence of the main-loop contract: the pair of the lowest sample position starts at
+     * word 0 and the pair of the highest one ends at the last word of the row (VC_NS words, allocated exactly; a symbolic
+     * allocation size makes CBMC 6.11 + external SAT solver give up with an error).  Any read outside the licence is then
+     * outside the object: pointer checks under CBMC, ASan natively */
+    VH_ASSUME (xlo == 0 && xhi + 2 == VC_NS);
+    n = VC_NS;
+    top = malloc (sizeof (uint32_t) * VC_NS);
+    bot = malloc (sizeof (uint32_t) * VC_NS);
     if (!top || !bot)
         return;
     for (i = 0; i < VC_NS; i++)
-        if (i < n)
-        {
-            top[i] = in_top[i]; bot[i] = in_bot[i];
-        }
+    {
+        top[i] = in_top[i]; bot[i] = in_bot[i];
+    }
 #else
     {
         static uint32_t tbuf[VC_NS], bbuf[VC_NS];
@@ -146,6 +157,9 @@ void harness (void)
 #elif VC_MCASE == 2
     for (i = 0; i < VC_W; i++)
         VH_ASSUME (in_msk[i] == 0xff);
+#elif VC_MCASE == 3
+    for (i = 0; i < VC_W; i++)
+        VH_ASSUME (in_msk[i] == ((i >= VC_HEAD && i < VC_HEAD + 4) ? 0 : 0xff));
 #endif
     solid[0] = in_solid;
 
